@@ -235,6 +235,24 @@ the dialer present, drain ticket taken -/
 def prepCreate (s : St) (k : Nat) (drain : Option Nat) (d : Nat) : St :=
   (acquireTicket (epochCounter (dropStale s k) d).1 drain).1
 
+/-- the endpoint object `createEndpointLocked` builds after a successful dial: the generation is the
+dialer's epoch *at that moment* (it may be stale by the time the object is published) -/
+def createRecord (s : St) (k : Nat) (sym : Bool) (nat : Nat) (owner drain : Option Nat) (d : Nat) : Ep :=
+  freshEp k sym nat (prepCreate s k drain d).now owner drain d
+    ((epochCounter (dropStale s k) d).1.ctrVal (epochCounter (dropStale s k) d).2)
+    (epochCounter (dropStale s k) d).2
+    (acquireTicket (epochCounter (dropStale s k) d).1 drain).2
+
+/-- the dial has happened (yield point `create.beforePublish`) -/
+def countDial (s : St) : St := { s with dials := s.dials + 1 }
+
+/-- `shard.pool[key] = ue` (and registration in the dialer's bucket) -/
+def publishEp (s : St) (E : Ep) : St :=
+  setPool (setEp { s with neps := s.neps + 1 } s.neps E) E.key (some s.neps)
+
+/-- creation = dial, then publish; between the two the pool does not know the endpoint yet -/
+theorem allocEp_split (s : St) (E : Ep) : allocEp s E = publishEp (countDial s) E := rfl
+
 /-- `GetOrCreate(key, {NatTimeout, ConnStateOwner, DrainTracker})`; `sym` = the key is
 destination-bound; `d` = the dialer `GetDialOption` selects -/
 def getOrCreate (s : St) (k : Nat) (sym : Bool) (nat : Nat) (owner drain : Option Nat) (d : Nat)
@@ -247,11 +265,7 @@ def getOrCreate (s : St) (k : Nat) (sym : Bool) (nat : Nat) (owner drain : Optio
     | .failNoAlive => (dropStale s k, .errDial)
     | .failGeneric => (allocEp (dropStale s k) (failureEntry k (dropStale s k).now), .errDial)
     | .ok =>
-      (allocEp (prepCreate s k drain d)
-        (freshEp k sym nat (prepCreate s k drain d).now owner drain d
-          ((epochCounter (dropStale s k) d).1.ctrVal (epochCounter (dropStale s k) d).2)
-          (epochCounter (dropStale s k) d).2
-          (acquireTicket (epochCounter (dropStale s k) d).1 drain).2),
+      (allocEp (prepCreate s k drain d) (createRecord s k sym nat owner drain d),
        .created (prepCreate s k drain d).neps)
 
 /-- `Get(key)` -/
@@ -326,11 +340,19 @@ def victims (s : St) (d : Nat) : List Nat :=
   (List.range s.neps).filter fun e =>
     !(s.eps e).failed && !(s.eps e).closed && (s.eps e).dialer == d && !(s.eps e).survives
 
-/-- `InvalidateDialerNetworkType(d)`; returns the number of endpoints retired -/
+/-- first half of `InvalidateDialerNetworkType(d)`: `counter.Add(1)` (yield point
+`invalidate.afterEpochBump`); from here on endpoints of the old generation that never carried
+traffic are unusable although they are still alive and pooled -/
+def invalBump (s : St) (d : Nat) : St := bumpEpoch (epochCounter s d).1 (epochCounter s d).2
+
+/-- the dialer's bucket as `InvalidateDialerNetworkType` snapshots it: registered, not yet closed -/
+def bucket (s : St) (d : Nat) : List Nat :=
+  (List.range s.neps).filter fun e => !(s.eps e).failed && !(s.eps e).closed && (s.eps e).dialer == d
+
+/-- `InvalidateDialerNetworkType(d)` as one step: bump, then retire (mark dead; leave the pool;
+close — `retire = closeEp ∘ selfRemove ∘ markDead`) every bucket member that carried no traffic -/
 def invalidate (s : St) (d : Nat) : St × Nat :=
-  ((victims (bumpEpoch (epochCounter s d).1 (epochCounter s d).2) d).foldl retire
-      (bumpEpoch (epochCounter s d).1 (epochCounter s d).2),
-   (victims (bumpEpoch (epochCounter s d).1 (epochCounter s d).2) d).length)
+  ((victims (invalBump s d) d).foldl retire (invalBump s d), (victims (invalBump s d) d).length)
 
 def resetOne (s : St) (ke : Nat × Nat) : St := closeEp (setPool s ke.1 none) ke.2
 
